@@ -42,7 +42,14 @@ impl Driver {
                 match successor.type_().clone() {
                     SuccessorType::FallThrough => {
                         let locations = location.forward()?;
-                        if locations.len() == 1 {
+                        // A lone successor is taken directly, unless it is a
+                        // conditional edge: its guard must hold like any other
+                        let lone_unguarded = locations.len() == 1
+                            && locations[0]
+                                .edge()
+                                .and_then(|edge| edge.condition())
+                                .is_none();
+                        if lone_unguarded {
                             Ok(Driver::new(
                                 self.program.clone(),
                                 locations[0].clone().into(),
@@ -117,7 +124,12 @@ impl Driver {
             }
             il::RefFunctionLocation::EmptyBlock(_) => {
                 let locations = location.forward()?;
-                if locations.len() == 1 {
+                let lone_unguarded = locations.len() == 1
+                    && locations[0]
+                        .edge()
+                        .and_then(|edge| edge.condition())
+                        .is_none();
+                if lone_unguarded {
                     return Ok(Driver::new(
                         self.program.clone(),
                         locations[0].clone().into(),
